@@ -100,6 +100,12 @@ def generate(rng, tier):
     cases = []
     pbin = ["add", "sub", "mul", "gcd", "lcm", "rem", "prem", "sprem", "resultant", "addmul", "submul", "div"]
     pun = ["neg", "derivative", "cont", "pp", "reductum", "assign"]
+    # variable lists / orders over a large variable database: ids far above the number of pushed variables
+    for _ in range(12 if tier == "quick" else 200):
+        nv = rng.choice([8, 40, 130, 260, 300, 700])
+        k = rng.randint(1, 6)
+        ids = [rng.choice([nv - 1, nv - 2, nv // 2, 0, 1, rng.randrange(nv)]) for _ in range(k)]
+        cases.append("vlist %d %s" % (nv, " ".join(map(str, ids))))
     for _ in range(n):
         c = rng.random()
         if c < 0.45:
@@ -170,7 +176,7 @@ def generate(rng, tier):
 
 def tag(case):
     t = case.split()
-    return t[0] + (":" + t[1] if t[0] != "rc" else "")
+    return t[0] + (":" + t[1] if t[0] not in ("rc", "vlist") else "")
 
 
 def nontrivial(case):
